@@ -3,7 +3,7 @@ from rules import r_hist, r_lock, r_errdrop, r_coord, r_keyid, r_opcode, r_doact
 
 PROPS = {
     "C01": {
-        "rules": [r_coord.run, r_doaction.rule_state_push, r_cancel.run, r_cancel.rule_owed, r_chv2.rule_rel, r_evict.run, r_countdown.run, r_tickorder.rule_wait_gate],
+        "rules": [r_coord.run, r_doaction.rule_state_push, r_cancel.run, r_cancel.rule_owed, r_chv2.rule_rel, r_evict.run, r_countdown.run, r_tickorder.rule_wait_gate, r_cancel.rule_retain_all],
         "explanation": "Decides structural clauses of 'no stuck output': (R-COORD) every State variant created at a "
                        "coordinate is removable by Release at that coordinate and the three coordinate predicates agree; "
                        "(R-STATE-PUSH) arms of do_action that create coordinate-keyed state do so on every path and the custom "
@@ -54,7 +54,7 @@ PROPS = {
                        "char-boundary safety of span slicing beyond the reviewed lexer invariant",
     },
     "C04": {
-        "rules": [r_coord.run, r_doaction.rule_state_push, r_layers.rule_fill, r_layers.rule_press_dedup, r_doaction.rule_state_clear, r_buildall.run_for("C04"), r_pipeline.run_cfg_mirror],
+        "rules": [r_coord.run, r_doaction.rule_state_push, r_layers.rule_fill, r_layers.rule_press_dedup, r_doaction.rule_state_clear, r_buildall.run_for("C04"), r_pipeline.run_cfg_mirror, r_cancel.rule_retain_all],
         "explanation": "Narrow: (R-FILL) the default fill of unassigned layer positions is decided from block-unmapped-keys and the "
                        "key only, never from the layer index, and position 0 is forced to NoOp; decides the release half of layered remapping — every state a press creates is keyed on the "
                        "coordinate (never the layer) and removed by Release at that coordinate (R-COORD); the key / layer / custom "
@@ -97,7 +97,7 @@ PROPS = {
                        "output characters are trusted to the parser's character table",
     },
     "C07": {
-        "rules": [r_idle.run, r_idle.run_keytiming, r_loop.run, r_idle.run_states, r_scratch.run, r_tickorder.rule_loop_ms],
+        "rules": [r_idle.run, r_idle.run_keytiming, r_loop.run, r_idle.run_states, r_scratch.run, r_tickorder.rule_loop_ms, r_idle.run_snapshot],
         "explanation": "Decides: (R-IDLE) every (type, field) of kanata's run-time state that has a self-dependent scalar update "
                        "(counter/timer) or loses elements in a function reachable from Kanata::tick_ms is read as a whole by "
                        "is_idle / can_block_update_idle_waiting (transitively), is covered by a container those read, or is listed "
@@ -108,7 +108,7 @@ PROPS = {
                        "table's semantic reasons are reviewed, not machine-checked",
     },
     "C08": {
-        "rules": [r_macro.run_all, r_cancel.run, r_cancel.rule_owed, r_evict.run_c08, r_scratch.run],
+        "rules": [r_macro.run_all, r_cancel.run, r_cancel.rule_owed, r_evict.run_c08, r_scratch.run, r_macro.rule_evicted_release],
         "explanation": "Decides: (R-MACRO-BAL) the macro compiler parse_macro_item_impl emits, on every path to an Ok return, a "
                        "Release event from the same source for every Press event it emits (single keys, output chords, held "
                        "modifier groups); (R-CANCEL) each of the sites that clear the running macros also removes the macro-held "
@@ -118,7 +118,7 @@ PROPS = {
                        "(see C01/C02 R-EVICT) — run-time values",
     },
     "C09": {
-        "rules": [r_traverse.run_chords, r_chv2.run_all, r_buildall.run_for("C09")],
+        "rules": [r_traverse.run_chords, r_chv2.run_all, r_buildall.run_for("C09"), r_traverse.run_rebuild],
         "explanation": "Narrow: (R-CHV2-REL) v2: release bookkeeping dominates every wholesale removal from the v2 queue, active "
                        "chords leave only via clear_released_chords which queues their virtual Release; (R-CHV2-DISABLED) every "
                        "chord-selecting lookup in process_presses filters on disabled layers (sibling agreement); (R-CH1-GUARD) v1: "
@@ -138,7 +138,7 @@ PROPS = {
         "not_decided": "exactly-once firing, backtracking, timeout boundary, permutations of overlap groups — run-time values",
     },
     "C13": {
-        "rules": [r_override.run_all, r_buildall.run_for("C13")],
+        "rules": [r_override.run_all, r_buildall.run_for("C13"), r_idle.run_snapshot],
         "explanation": "Narrow: (R-OVR-SCRATCH) in override_keys the scratch reset dominates every use of the scratch and the "
                        "no-overrides early return precedes every mutation; (R-OVR-MODS) mask_for_key returns Some for exactly the "
                        "keys OsCode::is_modifier accepts and the eight masks are distinct single bits; (R-OVR-BOTH) the tick path "
@@ -177,7 +177,7 @@ PROPS = {
         "not_decided": "which of several output keys is preferred; layer search order — run-time values",
     },
     "C10": {
-        "rules": [r_opcode.run_all, r_doaction.rule_fork_keys, r_hist.run, r_accessor.run, r_buildall.run_for("C10")],
+        "rules": [r_opcode.run_all, r_doaction.rule_fork_keys, r_hist.run, r_accessor.run, r_buildall.run_for("C10"), r_traverse.run_rebuild],
         "explanation": "Decides the encoding layer of switch and what it is evaluated over: (R-ACCESSOR) State::coord / State::keycode, "
                        "which feed the `input` and key conditions, return Some for every State variant that has the field; (a) the opcode tag constants partition u16 (evaluated constants); "
                        "(b) every OpCode constructor's tag and bit-fields are decoded by opcode_type into the OpCodeType variant its "
@@ -198,7 +198,7 @@ PROPS = {
         "not_decided": "D-1/D/D+1 timing of hold-for-duration and on-idle; idle measurement — run-time values",
     },
     "C19": {
-        "rules": [r_dynmacro.run_all],
+        "rules": [r_dynmacro.run_all, r_dynmacro.rule_delay_reset],
         "explanation": "Decides: (R-DM-RELEASE) in record_press / begin_record_macro / stop_macro every returned recording is "
                        "dominated by add_release_for_all_unreleased_presses and nothing that writes macro_items runs between that "
                        "call and the return; (R-DM-REC) in play_macro every queueing of replay items is dominated by inserting the "
